@@ -126,6 +126,34 @@ func subTLD(out string, seed uint64, tier string, arg string) {
 		emit("tldin\t"+esc(ul), b2s(util.IsInTLDMap(ul)))
 	}
 	rep.count(fmt.Sprintf("idn-u-labels=%d", len(uLabels)))
+	// "compared case-insensitively": the two letters outside ASCII whose lower case is an ASCII letter (KELVIN SIGN U+212A -> k,
+	// LATIN CAPITAL I WITH DOT ABOVE U+0130 -> i) spell table entries too. The model compares octets (it is stated for ASCII
+	// names), so these spellings are judged on the real code against the plain spelling of the same name.
+	nFold := 0
+	for i, k := range keys {
+		if i%3 != 0 && tier != "thorough" {
+			continue
+		}
+		for _, sub := range [][2]string{{"k", "\u212a"}, {"i", "\u0130"}} {
+			if !strings.Contains(k, sub[0]) {
+				continue
+			}
+			spelled := strings.Replace(k, sub[0], sub[1], 1)
+			for _, t := range []time.Time{now, time.Date(1990, 1, 1, 0, 0, 0, 0, time.UTC), time.Date(2016, 6, 1, 0, 0, 0, 0, time.UTC)} {
+				a, b := util.HasValidTLD("www.example."+k, t), util.HasValidTLD("www.example."+spelled, t)
+				rep.Evaluations++
+				nFold++
+				if a != b {
+					rep.violate(Violation{"C18", fmt.Sprintf("HasValidTLD answers %v for %q and %v for the case-insensitively equal %q at %s", a, "www.example."+k, b, "www.example."+spelled, t.Format(time.RFC3339)),
+						"case-fold:" + sub[0], map[string]interface{}{"plain": k, "spelled": spelled, "instant": t.Format(time.RFC3339)}})
+				}
+			}
+			if a, b := util.IsInTLDMap(k), util.IsInTLDMap(spelled); a != b {
+				rep.violate(Violation{"C18", fmt.Sprintf("IsInTLDMap answers %v for %q and %v for the case-insensitively equal %q", a, k, b, spelled), "case-fold-in:" + sub[0], map[string]interface{}{"plain": k, "spelled": spelled}})
+			}
+		}
+	}
+	rep.count(fmt.Sprintf("unicode-case-fold-spellings=%d", nFold))
 	for _, d := range []string{"example.\u00fc", "example.c\u00f6m", "example.com\u0301", "example.\uff43\uff4f\uff4d", "example.co\u200dm", "example.\xff", "example.com\x80"} {
 		valid(d, now)
 	}
